@@ -1,4 +1,4 @@
-import CifModel.Lemmas.ParseCB
+import CifModel.Lemmas.ParseCBTrace
 import CifModel.Spec.Traversal
 /-
   Property C15 — parse-time callbacks mirror the document and steer what is stored.
@@ -42,14 +42,6 @@ def C15_syntax_only_same_log_full (erase : Ev → Ev) (evEq : List Ev → List E
   ∀ (d : Doc) (p : Prog), (∀ k e, p k e = p k (erase e)) →
     evEq ((parseCB p true (tokensOf d)).1.map erase) ((parseCB p false (tokensOf d)).1.map erase) = true
     ∧ (parseCB p true (tokensOf d)).2.1 = (parseCB p false (tokensOf d)).2.1
-
-/-- a positive answer of any handler is the last handler callback and the result -/
-def C15_positive_aborts_full : Prop :=
-  ∀ (d : Doc) (p : Prog) (storing : Bool) (k : Nat)
-    (h : k < ((parseCB p storing (tokensOf d)).1.filter Ev.isHandler).length),
-    p k ((parseCB p storing (tokensOf d)).1.filter Ev.isHandler)[k] > 0 →
-      ((parseCB p storing (tokensOf d)).1.filter Ev.isHandler).length = k + 1
-      ∧ (parseCB p storing (tokensOf d)).2.1 = p k ((parseCB p storing (tokensOf d)).1.filter Ev.isHandler)[k]
 
 -- ---- proved ------------------------------------------------------------------------------------------------------
 
@@ -152,6 +144,47 @@ theorem C15_loop_start_local (p : Prog) (cont : Bool) (names : List Str) (s : St
   obtain ⟨h1, h2, h3⟩ := hr
   have hne : r ≠ OK := h1
   simp [loopStartStep, hs, site_stop p s _ _ _ r h h1 h2 h3, hne]
+
+/-- **A stopping answer ends the parse** — for all token sequences, all programs, both modes: if the `k`-th handler
+    callback answers anything but CONTINUE / SKIP_CURRENT / SKIP_SIBLINGS (END, or any code), then it is the last handler
+    callback, it is the last callback of any kind (no whitespace, data-name or keyword callback follows), and cif_parse
+    returns that answer if it is positive and CIF_OK otherwise. -/
+theorem C15_stop_is_last (p : Prog) (storing : Bool) (toks : List Tok) (k : Nat)
+    (hk : k < ((parseCB p storing toks).1.filter Ev.isHandler).length)
+    (hstop : isStop (p k ((parseCB p storing toks).1.filter Ev.isHandler)[k])) :
+    k + 1 = ((parseCB p storing toks).1.filter Ev.isHandler).length
+    ∧ (parseCB p storing toks).1.getLast? = some ((parseCB p storing toks).1.filter Ev.isHandler)[k]
+    ∧ (parseCB p storing toks).2.1 = (if p k ((parseCB p storing toks).1.filter Ev.isHandler)[k] > 0
+        then p k ((parseCB p storing toks).1.filter Ev.isHandler)[k] else OK) := by
+  have h := stop_of_top p _ _ (cif_top p 1 storing (fuelFor toks) toks) k hk hstop
+  refine ⟨h.1, ?_, h.2.2⟩
+  unfold parseCB
+  simp only [List.getLast?_reverse]
+  exact h.2.1
+
+/-- **END**: a handler answering END makes its callback the last one and cif_parse return CIF_OK -/
+theorem C15_end_ok (p : Prog) (storing : Bool) (toks : List Tok) (k : Nat)
+    (hk : k < ((parseCB p storing toks).1.filter Ev.isHandler).length)
+    (hend : p k ((parseCB p storing toks).1.filter Ev.isHandler)[k] = END) :
+    k + 1 = ((parseCB p storing toks).1.filter Ev.isHandler).length
+    ∧ (parseCB p storing toks).1.getLast? = some ((parseCB p storing toks).1.filter Ev.isHandler)[k]
+    ∧ (parseCB p storing toks).2.1 = OK := by
+  have h := C15_stop_is_last p storing toks k hk (by rw [hend]; decide)
+  refine ⟨h.1, h.2.1, ?_⟩
+  rw [h.2.2, hend]; decide
+
+/-- **Positive codes abort**: a handler answering a positive code makes its callback the last one and cif_parse return
+    that code -/
+theorem C15_positive_aborts (p : Prog) (storing : Bool) (toks : List Tok) (k : Nat)
+    (hk : k < ((parseCB p storing toks).1.filter Ev.isHandler).length)
+    (hpos : p k ((parseCB p storing toks).1.filter Ev.isHandler)[k] > 0) :
+    k + 1 = ((parseCB p storing toks).1.filter Ev.isHandler).length
+    ∧ (parseCB p storing toks).1.getLast? = some ((parseCB p storing toks).1.filter Ev.isHandler)[k]
+    ∧ (parseCB p storing toks).2.1 = p k ((parseCB p storing toks).1.filter Ev.isHandler)[k] := by
+  have h := C15_stop_is_last p storing toks k hk (by
+    unfold isStop CONTINUE SKIP_CURRENT SKIP_SIBLINGS; omega)
+  refine ⟨h.1, h.2.1, ?_⟩
+  rw [h.2.2]; simp [hpos]
 
 -- ---- the repaired defect F33, as a statement about the pinned variant ------------------------------------------------
 
